@@ -26,6 +26,11 @@ type HarnessSpec struct {
 	TimersAtEveryOp bool       `json:"timers_at_every_op"`
 	MaxPreemptions  int        `json:"max_preemptions"`
 	MaxPreemptionsThorough int `json:"max_preemptions_thorough"`
+	// delay-bounded scheduling: at most MaxDelays deviations from round-robin (absent: every enabled goroutine is
+	// tried at every blocking point); NoPreemption: switch only when the running goroutine blocks or yields
+	MaxDelays         *int `json:"max_delays"`
+	MaxDelaysThorough *int `json:"max_delays_thorough"`
+	NoPreemption      bool `json:"no_preemption"`
 }
 
 func (h *HarnessSpec) timeBudget() int {
@@ -75,6 +80,7 @@ type HarnessConfig struct {
 	pkgName  string
 	replFns  map[string]*ssa.Function
 	curSpec  *HarnessSpec
+	tier     string
 }
 
 // commonStubs: environment calls with no bearing on any property (logging, metrics).
@@ -151,8 +157,23 @@ func (c *HarnessConfig) skipInit(pkgPath string) bool {
 }
 
 // maxPreemptions bounds context switches away from a runnable goroutine (CHESS-style).
+func (c *HarnessConfig) maxDelays() int {
+	if c != nil && c.curSpec != nil {
+		if c.tier == "thorough" && c.curSpec.MaxDelaysThorough != nil {
+			return *c.curSpec.MaxDelaysThorough
+		}
+		if c.curSpec.MaxDelays != nil {
+			return *c.curSpec.MaxDelays
+		}
+	}
+	return -1
+}
+
 func (c *HarnessConfig) maxPreemptions(p *pathState) int {
 	if c != nil && c.curSpec != nil {
+		if c.curSpec.NoPreemption {
+			return 0
+		}
 		if p != nil && p.w.eng.tier == "thorough" && c.curSpec.MaxPreemptionsThorough > 0 {
 			return c.curSpec.MaxPreemptionsThorough
 		}
